@@ -345,7 +345,8 @@ def mismatch_key(m):
 def finish(run, in_fragment, findings_match):
     """Common tail: confirm, attribute to known findings, evidence, verdict."""
     prop = run.prop
-    findings = [f for f in load_findings() if f["property"] == prop and f.get("status") == "known"]
+    findings = [f for f in load_findings()
+                if (f["property"] == prop or prop in f.get("also", [])) and f.get("status") == "known"]
     observed = {}
     unexplained = []
     outside = 0
